@@ -170,8 +170,8 @@ fn run_c04(run: &mut Run) {
     run.min_nontrivial = 300;
     let n = literal_texts().len();
     run.literals("literals", &(0..n as u32).map(|i| vec![0, i]).collect::<Vec<_>>(), &c04_literal);
-    run.explore("render-read", run.tier.pick(40_000, 400_000), 2500, &c04_case);
-    run.explore("negative", run.tier.pick(10_000, 60_000), 1200, &c04_negative);
+    run.explore("render-read", run.tier.pick(80_000, 1_000_000), 2500, &c04_case);
+    run.explore("negative", run.tier.pick(20_000, 200_000), 1200, &c04_negative);
 }
 fn case_c04(sub: &str) -> Option<Box<CaseFn<'static>>> {
     match sub {
@@ -325,7 +325,7 @@ fn run_c05(run: &mut Run) {
     run.min_nontrivial = 300;
     run.literals("literals", &(0..4u32).map(|i| vec![0, i]).collect::<Vec<_>>(), &c05_literal);
     run.enumerate("version-gated", 18, &c05_gated);
-    run.explore("write-read", run.tier.pick(60_000, 600_000), 2500, &c05_case);
+    run.explore("write-read", run.tier.pick(120_000, 1_500_000), 2500, &c05_case);
     run.explore("lefrw-binary", run.tier.pick(400, 4_000), 2500, &c05_lefrw);
 }
 fn case_c05(sub: &str) -> Option<Box<CaseFn<'static>>> {
